@@ -5,6 +5,7 @@ import (
 	"fmt"
 	"math"
 	"path/filepath"
+	"strings"
 
 	"github.com/mutagen-io/mutagen/pkg/comparison"
 	"github.com/mutagen-io/mutagen/pkg/extension"
@@ -60,6 +61,15 @@ func (p *Protocol) UnmarshalText(textBytes []byte) error {
 	return nil
 }
 
+// beginsWithDash returns whether or not a URL component begins with a dash.
+// Usernames, hostnames, and container identifiers are passed to the ssh, scp,
+// and docker commands as positional arguments, and a component that begins with
+// a dash would be interpreted by those commands as an option (for example
+// "-oProxyCommand=..."), so we don't allow such components.
+func beginsWithDash(component string) bool {
+	return strings.HasPrefix(component, "-")
+}
+
 // EnsureValid ensures that URL's invariants are respected.
 func (u *URL) EnsureValid() error {
 	// Ensure that the URL is non-nil.
@@ -89,6 +99,10 @@ func (u *URL) EnsureValid() error {
 	} else if u.Protocol == Protocol_SSH {
 		if u.Host == "" {
 			return errors.New("SSH URL with empty hostname")
+		} else if beginsWithDash(u.User) {
+			return errors.New("SSH URL with username that begins with a dash")
+		} else if beginsWithDash(u.Host) {
+			return errors.New("SSH URL with hostname that begins with a dash")
 		} else if u.Port > math.MaxUint16 {
 			return errors.New("SSH URL with invalid port")
 		} else if len(u.Environment) != 0 {
@@ -102,6 +116,8 @@ func (u *URL) EnsureValid() error {
 		// environment variables the same as unspecified ones.
 		if u.Host == "" {
 			return errors.New("Docker URL with empty container identifier")
+		} else if beginsWithDash(u.Host) {
+			return errors.New("Docker URL with container identifier that begins with a dash")
 		} else if u.Port != 0 {
 			return errors.New("Docker URL with non-zero port")
 		}
